@@ -264,6 +264,10 @@ def std_stages(tier, seed, battery, closed=("split", "long"), kinds_random=None,
     st.append(Stage("model", "alpha/bytes", "huge2", size, battery))
     st.append(Stage("random", "compound/u8+str", "giant", size, battery, n=(2 if q else 6), len=(24 if q else 60), batevery=3, dumpevery=100000))
     st.append(Stage("model", "compound/u16+str", "huge2", size, battery))
+    # the closures test one step after the shortest history of every state; what a collapse or split leaves behind shows in
+    # LATER steps: random histories over the same universes
+    for k, u in (("alpha/string", "huge2"), ("alpha/bytes", "huge")):
+        st.append(Stage("random", k, u, size, battery, n=(6 if q else 20), len=(40 if q else 80), batevery=1, dumpevery=4))
     st.append(Stage("random", "alpha/bytes", "giant", size, battery, n=(2 if q else 6), len=(24 if q else 60), batevery=3, dumpevery=100000))
     for u in closed:
         for k in mk:
@@ -329,6 +333,11 @@ def std_stages(tier, seed, battery, closed=("split", "long"), kinds_random=None,
                         invs=["SizeOK", "AllOK"], every=False, batevery=6, variant="386"))
         st.append(Stage("sim", "alpha/string", "fan18", size, battery, num=(1 if q else 6), depth=(300 if q else 600), ramp=True,
                         invs=["SizeOK", "AllOK"], every=False, batevery=1, variant="386"))
+    # the closed universes again as random histories (steps AFTER a split / collapse / re-rooting, which the closures' one
+    # step past each state's shortest history never takes)
+    for i, u in enumerate(tuple(closed) + ("lfan",)):
+        st.append(Stage("random", "alpha/string" if i % 2 == 0 else "alpha/bytes", u, size, battery, n=(5 if q else 20), len=(40 if q else 90),
+                        batevery=1, dumpevery=3))
     kr = kinds_random if kinds_random is not None else SIMPLE_KINDS
     n = rnd_n or (4 if q else 30)
     ln = rnd_len or (50 if q else 120)
@@ -354,7 +363,8 @@ PROP_INVS = {
 def coll_stages(tier, battery, n=None, ln=None):
     q = tier == "quick"
     kinds = COLL_KINDS_Q if q else COLL_KINDS_T
-    st = [Stage("model", "collation/string/und", "textq", "q", battery)]
+    st = [Stage("model", "collation/string/und", "textq", "q", battery),
+          Stage("random", "collation/string/und", "textq", "q", battery, n=(5 if q else 20), len=(40 if q else 90), batevery=1, dumpevery=3)]
     for k in kinds:
         st.append(Stage("random", k, "text", "q" if q else "t", battery, n=n or (3 if q else 12), len=ln or (60 if q else 150),
                         batevery=(3 if q else 2)))
@@ -386,6 +396,7 @@ def comp_stages(tier, seed, battery, n=None, ln=None):
                         invs=["SizeOK", "AllOK"], every=False, start_full=True))
         if not q:
             st.append(Stage("sim", s, "tuplefan", "q", battery, num=4, depth=900, ramp=True, invs=["SizeOK", "AllOK"], every=False))
+    st.append(Stage("random", "compound/u64+u64+u8", "tuplelong", "q", battery, n=(5 if q else 20), len=(40 if q else 90), batevery=1, dumpevery=3))
     schemas = rand_schemas(seed, 4 if q else 20)
     for i, s in enumerate(schemas):
         if i < (1 if q else 4):
